@@ -946,8 +946,15 @@ def ufun(name, args, ret_ty):
     key = name + "/" + ",".join(a.ty.key for a in args)
     f = CTX.func(_mangle(key), *sorts)
     if not args:
-        return V(ret_ty, z3.Const(_mangle(key) + CTX.tag, CTX.sort(ret_ty)))
-    return V(ret_ty, f(*[a.t for a in args]))
+        r = V(ret_ty, z3.Const(_mangle(key) + CTX.tag, CTX.sort(ret_ty)))
+    else:
+        r = V(ret_ty, f(*[a.t for a in args]))
+    if isinstance(ret_ty, List):
+        # a list denoted by an uninterpreted function is still a list: its length is not negative (stated per application)
+        fact = llen(r) >= 0
+        if not any(fact.eq(x) for x in CTX.axioms[-40:]):
+            CTX.axioms.append(fact)
+    return r
 
 
 def concat_all(L):
